@@ -290,6 +290,7 @@ def build_pools(ctx):
         ("d3", pick(docs.dn(3, docs.PREFIX3, docs.BODY3), 800), ()),
         ("families", pick(docs.families(), 200), ()),
         ("edges", pick(docs.link_edges() + docs.leaf_edges(), 400), ()),
+        ("inline-edges", docs.inline_edges(), ()),
         ("container-pairs", pick(docs.container_pairs(), 500), ()),
         ("marker-variants", pick(docs.corpus_marker_variants(), 800), ()),
         ("multi-pairs", pick(docs.multi_pairs(), 400), ()),
@@ -472,7 +473,7 @@ def run(ctx):
     import blocks
     blocks.emphasis(ctx)       # resolve_wellNested: emphasis start/end tokens balanced and properly nested for every input
     blocks.gfm(ctx)            # the generator's stack discipline on well-formed streams (render_run, render_balanced)
-    ctx.block("coalescelib", "coalesce")        # coalesce pass preserves well-formedness (coalesce_preserves_wf)
+    ctx.block("coalescelib", "coalesce", __import__("blocks").SRC["coalesce"])        # coalesce pass preserves well-formedness (coalesce_preserves_wf)
     if not ok_build:
         ctx.broken.append("lake build failed: the monitor cannot be run")
     tasks = build_pools(ctx)
